@@ -64,6 +64,14 @@ func VerifH_C20_inRefusals() {
 	p.streamer = newStreamer(verifEventTimeout)
 	in := &verifInput{w: w, refuse: true}
 	p.input = in
+	// with the antispam enabled (threshold far away) and per-stream saved offsets handed in by the input,
+	// as file / k8s do after a restart: for these decoders nothing but the input decides "already committed"
+	var saved SliceMap
+	if vf.Choose("antispam-enabled", 2) == 1 {
+		p.settings.Antispam = AntispamSettings{Threshold: 10, MaintenanceInterval: time.Second}
+		p.antispamer = antispam.VerifNewAntispammer(&antispam.Options{Threshold: 10, MaintenanceInterval: time.Second, UnbanIterations: 1})
+		saved = SliceFromMap(map[StreamName]int64{"not_set": 100, "lagging": 1})
+	}
 	recs := verifRecordsFor(dec)
 	recs = append(recs, verifRecord{data: ""}, verifRecord{data: "\n"})
 	for i := 0; i < K; i++ {
@@ -72,7 +80,7 @@ func VerifH_C20_inRefusals() {
 		over := maxSize != 0 && len(r.data) > maxSize
 		buf := append([]byte(r.data), "NEXT"...) // the record sits inside a larger read buffer
 		refusedBefore := in.refusals
-		seq := p.In(1, "src", NewOffsets(int64(i+1), nil), buf[:len(r.data):len(buf)], false, nil)
+		seq := p.In(1, "src", NewOffsets(int64(i+1), saved), buf[:len(r.data):len(buf)], false, nil)
 		refusedByInput := in.refusals > refusedBefore
 		accepted := seq != EventSeqIDError
 		if over && cut {
